@@ -31,7 +31,16 @@ pub fn unr_space(k: usize) -> Space {
     let mut g = space::fancy_grammar(unr_atoms());
     g.cond_group = true;
     g.cond_expr = true;
-    Space::new().exh("unrestricted", g, k).ctxfill(2, 1, &|_| true)
+    // conditionals inside loops need 4 nodes: a small dedicated sub-space keeps them in the quick tier
+    let mut cl = space::cond_grammar(vec![lit("a"), Node::Dot, Node::Assert(A::End), Node::CondExists(1)]);
+    cl.unary = vec![
+        space::Unary::Group,
+        space::Unary::Rep(0, None, frmc_core::ast::Mode::Greedy),
+        space::Unary::Rep(1, None, frmc_core::ast::Mode::Greedy),
+        space::Unary::Rep(0, None, frmc_core::ast::Mode::Lazy),
+        space::Unary::Rep(2, None, frmc_core::ast::Mode::Greedy),
+    ];
+    Space::new().exh("unrestricted", g, k).exh("conditional-loops", cl, 4).ctxfill(2, 1, &|_| true)
 }
 
 fn span_ok(text: &str, s: usize, e: usize) -> bool {
